@@ -30,7 +30,7 @@ reference writer. This file connects the two:
   - `contig_views`: every descriptor of every contig of `archOf` loads, and the loaded views are the
     writer's pieces (`cutPieces`), which tile the contig;
   - the answers: `answer_listContigs_written`, `answer_getContig_written`, `answer_getSample_written`,
-    `contig_range_view` (for C07), error side `unknownContig_written`;
+    `answer_writeFasta_written`, `contig_range_view` (for C07), error side `unknownContig_written`;
   - `planned_of_minMatch`: the planner answers whenever `min_match_len ≥ 4`, so "the writer answers"
     can be replaced by that inequality in all `archOf`-level theorems (`Planned`).
 
@@ -54,6 +54,10 @@ The theorems a reader of the property wants are re-stated in `Props/C08.lean`
    explicit `lookup … = some s` hypothesis) hold without it.
 4. That the REAL writer is an instance of `writeArchive` is the C02 harness's byte identity, as for
    `read_write`.
+5. The other operations (`get_contig_segments_desc`, `get_segment_data`, `get_reference_segment`,
+   `get_samples_by_prefix`, `list_samples_with_prefix`, `get_group_statistics`, `get_all_segments`) are
+   functions of `archOf` after any history (`Props.C08.answer_canonical` + `archOf_wf`) but their
+   values are not spelled out in terms of the input here.
 -/
 namespace Ragc.ReaderLink
 open Ragc.CollVarint (Res)
